@@ -82,15 +82,19 @@ def embed(case, rank, pos, coord_kind, coord_name, rng, partial_nan=False):
             if case["nan"][j] and (pidx is None or o == pidx):
                 v = np.nan
             data[tuple(idx)] = v
-    if coord_kind == "float":
+    if coord_kind in ("float", "int"):
         a, b = 0.5, 0.0
     elif coord_kind == "scaled":
         a, b = 0.125, 10.0
     else:
         a, b = None, None
-    if coord_kind in ("float", "scaled"):
+    if coord_kind in ("float", "scaled", "int"):
         cx = np.array([a * v + b for v in xp], dtype="float64")
         tx = np.array([a * v + b for v in case["x"]], dtype="float64")
+        if coord_kind == "int":
+            # an integer-typed coordinate (levels, whole degrees) with targets between the nodes (half integers) and at negative values
+            cx = (cx - 3.0).astype("int64")
+            tx = tx - 3.0
     elif coord_kind == "degrees":
         cx = np.array(xp, dtype="float64")
         tx = np.array(case["x"], dtype="float64")
